@@ -99,8 +99,8 @@ Proof.
   intros I Hcl Hfit Hrh Hvi. unfold tbl_add.
   assert (Hcast : cast U32 claimed = claimed) by (unfold cast, U32; apply N.mod_small; lia).
   rewrite Hcast.
-  assert (Hnl : add_m md U32 claimed (t_len s) = Some (claimed + t_len s)).
-  { unfold add_m, U32. rewrite (inv_len s I).
+  assert (Hnl : add_c U32 claimed (t_len s) = Some (claimed + t_len s)).
+  { unfold add_m, add_c, U32. rewrite (inv_len s I).
     destruct (N.ltb_spec (claimed + N.of_nat (length (tbl_image s))) (2 ^ 32)); [reflexivity|lia]. }
   rewrite Hnl. cbn [option_bind].
   assert (Ecnt : exists c, (match t_kind s with
@@ -108,15 +108,15 @@ Proof.
             | KRhct => add_m md U32 (t_cnt s) 1
             | _ => Some (t_cnt s + 1) end) = Some c).
   { destruct (t_kind s); try (eexists; reflexivity).
-    unfold add_m, U32. specialize (Hrh eq_refl). destruct (N.ltb_spec (t_cnt s + 1) (2 ^ 32)); [eexists; reflexivity|lia]. }
+    unfold add_m, add_c, U32. specialize (Hrh eq_refl). destruct (N.ltb_spec (t_cnt s + 1) (2 ^ 32)); [eexists; reflexivity|lia]. }
   destruct Ecnt as [c ->]. cbn [option_bind].
   assert (Ehoff : exists c, (match t_kind s with
             | KViot => add_c U16 (t_hoff s) (cast U16 claimed)
             | KPptt | KRhct => add_m md U32 (t_hoff s) claimed
             | _ => Some (t_hoff s + claimed) end) = Some c).
   { rewrite (inv_hoff s I). destruct (t_kind s); try (eexists; reflexivity).
-    - unfold add_m, U32. destruct (N.ltb_spec (N.of_nat (length (tbl_image s)) + claimed) (2 ^ 32)); [eexists; reflexivity|lia].
-    - unfold add_m, U32. destruct (N.ltb_spec (N.of_nat (length (tbl_image s)) + claimed) (2 ^ 32)); [eexists; reflexivity|lia].
+    - unfold add_m, add_c, U32. destruct (N.ltb_spec (N.of_nat (length (tbl_image s)) + claimed) (2 ^ 32)); [eexists; reflexivity|lia].
+    - unfold add_m, add_c, U32. destruct (N.ltb_spec (N.of_nat (length (tbl_image s)) + claimed) (2 ^ 32)); [eexists; reflexivity|lia].
     - specialize (Hvi eq_refl). unfold add_c, cast, U16. rewrite (N.mod_small claimed) by lia.
       destruct (N.ltb_spec (N.of_nat (length (tbl_image s)) + claimed) (2 ^ 16)); [eexists; reflexivity|lia]. }
   destruct Ehoff as [c' ->]. cbn [option_bind]. eexists; reflexivity.
@@ -155,7 +155,7 @@ Section Progress.
       assert (Hlen1 : length (tbl_image (set_flag s1 (a_flag e))) = (length (tbl_image s) + length (a_bytes e))%nat).
       { change (length (tbl_image (set_flag s1 (a_flag e)))) with (length (tbl_image s1)).
         unfold tbl_add in E.
-        destruct (add_m md U32 (cast U32 (a_claimed e)) (t_len s)); [|discriminate]. cbn [option_bind] in E.
+        destruct (add_c U32 (cast U32 (a_claimed e)) (t_len s)); [|discriminate]. cbn [option_bind] in E.
         destruct (match t_kind s with KViot => _ | KRhct => _ | _ => _ end); [|discriminate]. cbn [option_bind] in E.
         destruct (match t_kind s with KViot => _ | KPptt | KRhct => _ | _ => _ end); [|discriminate]. cbn [option_bind] in E.
         inversion E; subst; clear E.
@@ -167,7 +167,7 @@ Section Progress.
       exists (set_flag s1 (a_flag e)).
       assert (Hh : h = N.of_nat (length (tbl_image s))).
       { clear Hev Hstep. unfold tbl_add in E.
-        destruct (add_m md U32 (cast U32 (a_claimed e)) (t_len s)); [|discriminate]. cbn [option_bind] in E.
+        destruct (add_c U32 (cast U32 (a_claimed e)) (t_len s)); [|discriminate]. cbn [option_bind] in E.
         destruct (match t_kind s with KViot => _ | KRhct => _ | _ => _ end); [|discriminate]. cbn [option_bind] in E.
         destruct (match t_kind s with KViot => _ | KPptt | KRhct => _ | _ => _ end); [|discriminate]. cbn [option_bind] in E.
         inversion E; subst. exact (inv_hoff s I). }
